@@ -1216,6 +1216,45 @@ impl World {
                     self.bump("conf_proposals_accepted");
                 }
             }
+            Action::ProposeBatch { n, id, before, after, conf } => {
+                let mut ents: Vec<Entry> = Vec::new();
+                let mut next = *id;
+                let mut normal = |k: u8, ents: &mut Vec<Entry>, next: &mut u64| {
+                    for _ in 0..k {
+                        let mut e = Entry::default();
+                        e.data = new_entry_payload(*next, 12).into();
+                        *next += 1;
+                        ents.push(e);
+                    }
+                };
+                normal(*before, &mut ents, &mut next);
+                if let Some((v1, transition, changes)) = conf {
+                    let (c1, c2) = build_cc(*v1, *transition, changes);
+                    let mut e = Entry::default();
+                    match c1 {
+                        Some(c) => {
+                            e.set_entry_type(EntryType::EntryConfChange);
+                            e.data = c.write_to_bytes().unwrap().into();
+                        }
+                        None => {
+                            e.set_entry_type(EntryType::EntryConfChangeV2);
+                            e.data = c2.write_to_bytes().unwrap().into();
+                        }
+                    }
+                    ents.push(e);
+                }
+                normal(*after, &mut ents, &mut next);
+                if !ents.is_empty() {
+                    let mut m = Message::default();
+                    m.set_msg_type(MessageType::MsgPropose);
+                    m.from = *n;
+                    m.to = *n;
+                    m.set_entries(ents.into());
+                    self.bump("batched_proposals");
+                    let mc = m.clone();
+                    self.call(*n, CallKind::Step(Box::new(mc)), move |raw| raw.step(m).map_err(|e| format!("{e:?}")))?;
+                }
+            }
             Action::ReadIndex { n, id } => {
                 if self.nodes.get(n).map(|x| x.running()).unwrap_or(false) {
                     self.bump("reads_issued");
@@ -1344,6 +1383,7 @@ impl World {
             Action::Fsync { n, .. } => (9, *n),
             Action::Apply { n, .. } => (10, *n),
             Action::Propose { n, .. } => (11, *n),
+            Action::ProposeBatch { n, .. } => (31, *n),
             Action::ProposeConf { n, .. } => (12, *n),
             Action::ReadIndex { n, .. } => (13, *n),
             Action::Transfer { n, .. } => (14, *n),
